@@ -6,6 +6,11 @@ HERE = os.path.dirname(os.path.dirname(os.path.abspath(__file__)))
 ALL = ["C%02d" % i for i in range(1, 21)]
 
 CHECKS = {
+ "C05": dict(
+    category="model_checking", design_ref="DESIGN.md 5/C05",
+    text="spec/Parsers.tla defines, for every entry point that parses untrusted bytes, the legal outcomes (ok/err only, largest single allocation request <= 512*len+64KiB, accepted input re-serializable without panic), the must-reject predicates computed from the raw bytes in overflow-free arithmetic, and the boundary mutations of conforming base images (every header/table field x boundary values, all truncations). Inputs generated that way plus seeded random buffers/mutations are run through all 10 entry points in a supervised worker under both arithmetic profiles; TLC decides every observed outcome.",
+    note="Freedom from panic/abort/overflow/hang/over-allocation is observed on the generated inputs (tens of thousands per run), not proved; the spec contributes legality, must-reject and boundary-value generation. Tracking allocator in the harness; single requests > 1 GiB are refused (abort observed by the supervisor).",
+    technique="TLA+ outcome model + TLC-generated boundary mutations; isolated execution under two build profiles; TLC validation of outcomes"),
  "C06": dict(
     category="model_checking", design_ref="DESIGN.md 5/C06",
     text="TLA+ specification of the text archive file format (spec/TextFormat.tla over BinFormat.tla): value -> archive content -> canonical image, and a reference reader. TLC checks round trip, 4-byte alignment and key-as-label on every enumerated value in all 4 format x endianness configurations; mila must produce exactly the specification image for each value and parse it back; random archives over all of Unicode / lossless Shift-JIS recorded from mila are read back by TLC's reference reader.",
